@@ -35,6 +35,7 @@ func propC12(w *World, r *Report) {
 	br12 := newBoundsRun(w)
 	RunLosslessFor(w, r, "C12", br12)
 	runNarrowBoundIn(w, r, br12, "/hmtx", "/head", "/os2", "/post", "/maxp")
+	runFlagReduceIn(w, r, "/hmtx", "/head", "/os2", "/post", "/maxp")
 	RunLosslessControls(r)
 	RunBBoxCorners(w, r)
 	RunExtremumInit(w, r, losslessFuncs(w, r, "C12"))
